@@ -181,6 +181,32 @@ def check_c26(prog):
                         break
         elif got[0] == "ok" and got[1] and "InconsistentEvidence" in cond[1]:
             out["violations"].append(("subquery3:inconsistent-evidence-answered", "subquery/3 answered %s for zero-probability evidence" % sorted(got[1].items())))
+        # both forms in ONE program, in both orders: an earlier subquery (its evidence, its grounding) must not leak into
+        # a later one; every query of the program is asked unconditionally next to the conditional call
+        if cond[0] == "ok" and got[0] == "ok":
+            for order in ("3-then-2", "2-then-3"):
+                for q2 in qs:
+                    goal2 = progs.atom_str(q2[1]).replace("_", "Y")
+                    c3 = "G = %s, subquery(G, P3, [%s])" % (goal, evterm)
+                    c2 = "H = %s, subquery(H, P2)" % goal2
+                    wrapper = progs.render(rest) + "ask(G,P3,H,P2) :- %s.\n" % (", ".join([c3, c2] if order == "3-then-2" else [c2, c3]))
+                    try:
+                        e = DefaultEngine()
+                        db = e.prepare(PrologString(wrapper))
+                        res = e.query(db, Term("ask", None, None, None, None))
+                        rows = [(str(r[0]), float(r[1]), str(r[2]), float(r[3])) for r in res]
+                    except Exception as ex:      # noqa
+                        out["violations"].append(("subquery-sequence:exception:" + classify_exception(ex).split(":", 1)[1],
+                                                  "%s raised %s" % (order, classify_exception(ex))))
+                        continue
+                    exp3 = dict((k, v2) for k, v2 in cond[1].items() if _instance_of(k, q[1]))
+                    exp2 = dict((k, v2) for k, v2 in base[1].items() if _instance_of(k, q2[1]))
+                    bad = [r for r in rows if abs(exp3.get(r[0], 0.0) - r[1]) > 1e-7 or abs(exp2.get(r[2], 0.0) - r[3]) > 1e-7]
+                    if bad:
+                        out["violations"].append(("subquery-sequence:value", "%s in one clause (%s / %s): rows %s; top level gives "
+                                                  "conditional %s and unconditional %s" % (order, c3, c2, bad[:3], sorted(exp3.items()),
+                                                                                           sorted(exp2.items()))))
+                        break
     return out
 
 
